@@ -1067,7 +1067,7 @@ class Geodesic(Sub):
                   lambda: "loss(%s, %s)=%r but the angle of R_x R_y^T is %r (tol %.3g); x=%s y=%s"
                   % (lx, ly, float(a[i]), float(ref[i]), tol[i], xs[i], ys[i]))
         lo, hi = float(min(a.min(), b.min())), float(max(a.max(), b.max()))
-        rec.check(lo >= 0.0 and hi <= math.pi * (1 + 4 * eps), "geodesic:range:" + dtype,
+        rec.check(lo >= 0.0 and hi <= math.pi * (1 + 8 * eps), "geodesic:range:" + dtype,
                   "loss outside [0, pi]: min %r max %r" % (lo, hi))
         j = int(np.argmax(np.abs(a - b) / tol))
         _note(rec, "sym/tol:" + dtype, abs(a[j] - b[j]) / (2 * tol[j]))
